@@ -1,4 +1,4 @@
-(** Model of src/epd1in54b/mod.rs — STUB, not yet transcribed. *)
+(** Model of src/epd1in54b/mod.rs. *)
 From Coq Require Import List NArith Bool.
 From EPD Require Import Iface Ops Drv.Luts.
 Import ListNotations.
@@ -8,11 +8,127 @@ Open Scope m_scope.
 Module Epd1in54b.
 Definition WIDTH : N := 200.
 Definition HEIGHT : N := 200.
+Definition DEFAULT_BACKGROUND_COLOR : N := cWhite.
+Definition IS_BUSY_LOW := true.
 
-Definition init : M unit := ret tt.
+(** Color::get_byte_value *)
+Definition get_byte_value (c : N) : N := if c =? cWhite then 0xff else 0x00.
 
-Definition exec (k : N) (o : op) : option (M rval) := None.
+Definition wait_until_idle : M unit := wait_idle IS_BUSY_LOW.
+
+(** the private wrappers of the driver *)
+Definition command (c : N) : M unit := cmd c.
+Definition send_data (l : list N) : M unit := data l.
+Definition cmd_with_data' (c : N) (l : list N) : M unit := cmd_with_data c l.
+
+Definition send_resolution : M unit :=
+  let w := WIDTH in
+  let h := HEIGHT in
+  command 0x61 ;;
+  send_data [u8 w] ;;
+  send_data [u8 (shr h 8)] ;;
+  send_data [u8 h].
+
+Definition set_lut (r : option N) : M unit :=
+  cmd_with_data 0x20 epd1in54b_LUT_VCOM0 ;;
+  cmd_with_data 0x21 epd1in54b_LUT_WHITE_TO_WHITE ;;
+  cmd_with_data 0x22 epd1in54b_LUT_BLACK_TO_WHITE ;;
+  cmd_with_data 0x23 epd1in54b_LUT_G1 ;;
+  cmd_with_data 0x24 epd1in54b_LUT_G2 ;;
+  cmd_with_data 0x25 epd1in54b_LUT_RED_VCOM ;;
+  cmd_with_data 0x26 epd1in54b_LUT_RED0 ;;
+  cmd_with_data 0x27 epd1in54b_LUT_RED1.
+
+Definition init : M unit :=
+  reset 10000 10000 ;;
+  cmd_with_data 0x01 [0x07; 0x00; 0x08; 0x00] ;;
+  cmd_with_data 0x06 [0x07; 0x07; 0x07] ;;
+  command 0x04 ;;
+  delay_us 5000 ;;
+  wait_until_idle ;;
+  cmd_with_data' 0x00 [0xCF] ;;
+  cmd_with_data' 0x50 [0x37] ;;
+  cmd_with_data' 0x30 [0x39] ;;
+  send_resolution ;;
+  cmd_with_data' 0x82 [0x0E] ;;
+  set_lut None ;;
+  wait_until_idle.
+
+(** [black] is buffer argument [a] of call [k] *)
+Definition update_achromatic_frame (k a len : N) : M unit :=
+  wait_until_idle ;;
+  send_resolution ;;
+  cmd 0x10 ;;
+  (* for b in black: one data call with the two bytes of expand_bits b *)
+  data_each BExp2 2 (DArg k a 0 len).
+
+Definition update_chromatic_frame (k a len : N) : M unit :=
+  cmd 0x13 ;;
+  data_e (DArg k a 0 len).
+
+Definition update_color_frame (k l1 l2 : N) : M unit :=
+  update_achromatic_frame k 0 l1 ;;
+  update_chromatic_frame k 1 l2.
+
+Definition sleep : M unit :=
+  wait_until_idle ;;
+  cmd_with_data 0x50 [0x17] ;;
+  cmd_with_data 0x82 [0x00] ;;
+  cmd_with_data 0x01 [0x02; 0x00; 0x00; 0x00] ;;
+  wait_until_idle ;;
+  command 0x02.
+
+Definition update_frame (k len : N) : M unit :=
+  wait_until_idle ;;
+  send_resolution ;;
+  cmd 0x10 ;;
+  data_each BExp2 2 (DArg k 0 0 len) ;;
+  s <- get ;;
+  let color := get_byte_value (bg s) in
+  let nbits := WIDTH * (HEIGHT / 8) in
+  cmd 0x13 ;;
+  data_x_times color nbits.
+
+Definition update_partial_frame (k len x y w h : N) : M unit := panic.
+
+Definition display_frame : M unit :=
+  wait_until_idle ;;
+  command 0x12.
+
+Definition update_and_display_frame (k len : N) : M unit :=
+  update_frame k len ;;
+  display_frame.
+
+Definition clear_frame : M unit :=
+  wait_until_idle ;;
+  send_resolution ;;
+  let color := get_byte_value DEFAULT_BACKGROUND_COLOR in
+  cmd 0x10 ;;
+  data_x_times color (2 * (WIDTH / 8 * HEIGHT)) ;;
+  cmd 0x13 ;;
+  data_x_times color (WIDTH / 8 * HEIGHT).
+
+Definition exec (k : N) (o : op) : option (M rval) :=
+  match o with
+  | OSleep => unit_ sleep
+  | OWakeUp => unit_ init
+  | OSetBg c => unit_ (modify (set_bg c))
+  | OGetBg => Some (s <- get ;; ret (RColor (bg s)))
+  | OWidth => Some (ret (RNum WIDTH))
+  | OHeight => Some (ret (RNum HEIGHT))
+  | OUpdateFrame len => unit_ (update_frame k len)
+  | OUpdatePartial len x y w h => unit_ (update_partial_frame k len x y w h)
+  | ODisplay => unit_ display_frame
+  | OUpdateAndDisplay len => unit_ (update_and_display_frame k len)
+  | OClear => unit_ clear_frame
+  | OSetLut r => unit_ (set_lut r)
+  | OWaitIdle => unit_ wait_until_idle
+  | OUpdateColor l1 l2 => unit_ (update_color_frame k l1 l2)
+  | OUpdateAchromatic len => unit_ (update_achromatic_frame k 0 len)
+  | OUpdateChromatic len => unit_ (update_chromatic_frame k 0 len)
+  | _ => None
+  end.
 
 Definition drv (ft : feat) : driver :=
-  mkDriver WIDTH HEIGHT true d0 init exec.
+  mkDriver WIDTH HEIGHT true (mkD DEFAULT_BACKGROUND_COLOR 0 false false 0 None) init exec.
 End Epd1in54b.
